@@ -29,7 +29,8 @@ pub fn gen_churn(prop: &str, seed: u64) -> RunDesc {
                 ops.push(op(K::Pin, 1, 0, 0, 0));
             }
             for _ in 0..rng.below(5) {
-                ops.push(op(K::Defer, 0, shape(&mut rng), 0, 0));
+                let chain = if rng.chance(0.25) { 1 + rng.below(3) as u32 } else { 0 };
+                ops.push(op(K::Defer, 0, shape(&mut rng), chain, 0));
             }
             match rng.below(6) {
                 0 => ops.push(op(K::Flush, 0, 0, 0, 0)),
@@ -156,7 +157,8 @@ pub fn gen_longcs(prop: &str, seed: u64) -> RunDesc {
         for r in 0..rounds {
             ops.push(op(K::Pin, 0, 0, 0, 0));
             for _ in 0..1 + rng.below(3) {
-                ops.push(op(K::Defer, 0, shape(&mut rng), 0, 0));
+                let chain = if rng.chance(0.3) { 1 + rng.below(3) as u32 } else { 0 };
+                ops.push(op(K::Defer, 0, shape(&mut rng), chain, 0));
             }
             ops.push(op(K::Flush, 0, 0, 0, 0));
             ops.push(op(K::Unpin, 0, 0, 0, 0));
